@@ -1,6 +1,7 @@
 package props
 
 import (
+	"strings"
 	"fmt"
 	"go/constant"
 	"go/token"
@@ -81,11 +82,9 @@ func internalKeyLayout(c *Ctx, rule string) {
 		c.Decide(sz == extra+8, rule, key(fn, "make(len+suffix)"), fn.Pos(), 1, fmt.Sprintf("allocates len(key)+%d", sz), fmt.Sprintf("allocates len(key)+%d, expected +%d (8-byte version suffix)", sz, extra+8))
 		inv := false
 		for _, pu := range Calls(fn, false, Named("(encoding/binary.bigEndian).PutUint64")) {
-			if bo, ok := pu.Common().Args[len(pu.Common().Args)-1].(*ssa.BinOp); ok && bo.Op == token.SUB {
-				if k, ok := bo.X.(*ssa.Const); ok && k.Value != nil && k.Value.ExactString() == "18446744073709551615" {
-					if _, isP := bo.Y.(*ssa.Parameter); isP {
-						inv = true
-					}
+			if x, ok := invertedUint64(pu.Common().Args[len(pu.Common().Args)-1]); ok {
+				if _, isP := x.(*ssa.Parameter); isP {
+					inv = true
 				}
 			}
 		}
@@ -94,11 +93,9 @@ func internalKeyLayout(c *Ctx, rule string) {
 	if fn := c.Fn("kv", "ParseTs"); fn != nil {
 		inv, w := false, suffixWidths(fn)
 		for _, r := range Returns(fn) {
-			if bo, ok := RetVal(r, 0).(*ssa.BinOp); ok && bo.Op == token.SUB {
-				if k, ok := bo.X.(*ssa.Const); ok && k.Value != nil && k.Value.ExactString() == "18446744073709551615" {
-					if call, ok := bo.Y.(*ssa.Call); ok && Named("(encoding/binary.bigEndian).Uint64")(call.Common()) {
-						inv = true
-					}
+			if x, ok := invertedUint64(RetVal(r, 0)); ok {
+				if call, ok := x.(*ssa.Call); ok && Named("(encoding/binary.bigEndian).Uint64")(call.Common()) {
+					inv = true
 				}
 			}
 		}
@@ -145,4 +142,30 @@ func suffixWidths(fn *ssa.Function) map[int64]bool {
 		}
 	})
 	return out
+}
+
+// invertedUint64: v is MaxUint64 - x, or the bitwise complement ^x (the same value in uint64);
+// returns x.
+func invertedUint64(v ssa.Value) (ssa.Value, bool) {
+	switch b := v.(type) {
+	case *ssa.BinOp:
+		if b.Op == token.SUB {
+			if k, ok := b.X.(*ssa.Const); ok && k.Value != nil && k.Value.ExactString() == "18446744073709551615" {
+				return b.Y, true
+			}
+		}
+		if b.Op == token.XOR {
+			if k, ok := b.Y.(*ssa.Const); ok && k.Value != nil && k.Value.ExactString() == "18446744073709551615" {
+				return b.X, true
+			}
+			if k, ok := b.X.(*ssa.Const); ok && k.Value != nil && k.Value.ExactString() == "18446744073709551615" {
+				return b.Y, true
+			}
+		}
+	case *ssa.UnOp:
+		if b.Op == token.XOR && strings.HasPrefix(b.X.Type().Underlying().String(), "uint64") {
+			return b.X, true
+		}
+	}
+	return nil, false
 }
